@@ -163,6 +163,93 @@ def _fact_excuse(fn, pred):
     return ex
 
 
+def _bool_alts(e, pol, limit=64):
+    """DNF [[(atom, polarity), ..], ..] of what holds when `e` is truthy (pol) / falsy (not pol)."""
+    if isinstance(e, ast.UnaryOp) and isinstance(e.op, ast.Not):
+        return _bool_alts(e.operand, not pol, limit)
+    if isinstance(e, ast.BoolOp):
+        parts = [_bool_alts(v, pol, limit) for v in e.values]
+        if isinstance(e.op, ast.And) == pol:        # all operands decide: conjunction
+            out = [[]]
+            for p in parts:
+                out = [a + b for a in out for b in p]
+                if len(out) > limit:
+                    raise AnalysisError("boolean expression too large to split into cases")
+            return out
+        return [a for p in parts for a in p]
+    if isinstance(e, ast.Constant):
+        return [[]] if bool(e.value) == pol else []
+    return [[(e, pol)]]
+
+
+def _helper_fact_excuse(fn, pred, depth=2, _busy=None):
+    """Like _fact_excuse, and an edge `self.m()` truthy / falsy (also via a local) is excusing when every way for the
+    argument-less helper m to return such a value has passed an excusing edge inside m or returns an expression whose
+    truth value implies a fact satisfying `pred` (`return a and b` falsy: a falsy or b falsy, each must be excusing)."""
+    fnorm = FlowNorm(fn)
+    busy = _busy if _busy is not None else set()
+    cache = {}
+
+    def fact_ok(f):
+        if not f:
+            return False
+        if pred(*f):
+            return True
+        if f[0] in ("truth", "false") and f[1] and fn.cls is not None and depth > 0:
+            m = re.match(r"^self\.(\w+)\(\)$", f[1])
+            if m:
+                key = (m.group(1), f[0] == "truth")
+                if key not in cache:
+                    h = fn.cls.lookup(m.group(1))
+                    if h is None or (h.qual, key[1]) in busy:
+                        cache[key] = False
+                    else:
+                        busy.add((h.qual, key[1]))
+                        try:
+                            cache[key] = _returns_only_when(h, pred, key[1], depth - 1, busy)
+                        finally:
+                            busy.discard((h.qual, key[1]))
+                return cache[key]
+        return False
+
+    def ex(n, lab):
+        return fact_ok(fnorm.edge_fact(n, lab))
+    ex.fact_ok = fact_ok
+    ex.fnorm = fnorm
+    return ex
+
+
+def _returns_only_when(h, pred, pol, depth, busy):
+    if any(isinstance(x, (ast.Yield, ast.YieldFrom, ast.Await)) for x in func_own_nodes(h)) \
+            or isinstance(h.node, ast.AsyncFunctionDef) or len(h.params) > 1 or h.node.decorator_list:
+        return False
+    cfg = h.cfg()
+    inner = _helper_fact_excuse(h, pred, depth, busy)
+    bad = []
+
+    def transfer(n, lab, nxt, st):
+        if st == 0 and inner(n, lab):
+            return 1
+        if st == 0 and lab != "exc" and nxt is cfg.exit and not (n.kind == "stmt" and isinstance(n.ast, ast.Return)):
+            if not pol:
+                bad.append(n)            # falls off the end: returns None
+        return st
+    visited, _ = explore(cfg, 0, transfer)
+    if bad:
+        return False
+    for (nid, st) in visited:
+        n = cfg.nodes[nid]
+        if st or n.kind != "stmt" or not isinstance(n.ast, ast.Return):
+            continue
+        v = n.ast.value if n.ast.value is not None else ast.Constant(value=None)
+        v = inner.fnorm.resolve(n, v)
+        nz = inner.fnorm.at(n)
+        for alt in _bool_alts(v, pol):
+            if not any(inner.fact_ok(nz.cmp(a, p)) for (a, p) in alt):
+                return False
+    return True
+
+
 def _target_func(fn, t):
     if isinstance(t, ast.Name):
         f = fn
@@ -1188,7 +1275,7 @@ def run(ctx: Context):
         wake = _schedules(lambda p: p == "self.loop" or p.endswith(".no_more_shares"))
         if not lp.cfg().find(wake):
             raise AnchorVanished("ShareFinder.loop schedules neither itself nor no_more_shares")
-        ws, k = _unexcused(lp, wake, _fact_excuse(lp, idle_reason))
+        ws, k = _unexcused(lp, wake, _helper_fact_excuse(lp, idle_reason))
         r.count(k)
         for w in ws:
             r.violation(lp, lp.loc(), "ShareFinder.loop can return without a request in flight, without rescheduling "
@@ -1201,15 +1288,18 @@ def run(ctx: Context):
         srv = attr_path(scalls[0].args[0]) if scalls and scalls[0].args else None
         if srv is None:
             raise AnchorVanished("ShareFinder.loop no longer calls send_request(<server variable>)")
-        fx3 = FlowNorm(lp)
+        # the server variable itself is tested, whatever it was bound from (next(it, None), a helper returning an
+        # Optional): keep it symbolic instead of replacing it by its defining call
+        fx3 = FlowNorm(lp, keep=(srv,))
 
         def have_server(n, lab):
             f = fx3.edge_fact(n, lab)
             return f in (("truth", srv, None), ("is not", "None", srv), ("!=", "None", srv))
 
         def took_server(n):
+            # next(it) yields a server or raises; next(it, default) may hand back the default and needs the test
             v = assign_value(n, srv) if srv in node_stores(n) else None
-            return isinstance(v, ast.Call) and call_tail(v) == "next"
+            return isinstance(v, ast.Call) and call_tail(v) == "next" and len(v.args) == 1 and not v.keywords
         r.site(lp, scalls[0], "queries only a server it obtained")
         for (n, w) in find_path_avoiding(lp.cfg(), _calls(lp, "self.send_request"), gate_node=took_server,
                                          gate_edge=have_server, kill=stores(srv)):
@@ -1877,6 +1967,186 @@ def run(ctx: Context):
 _run_termination = run
 
 
+def _bookkeeping_through_helpers(ctx, rule):
+    """C03.2 reads the bookkeeping of _block_request_activity in the handler's own body.  When the handler delegates to
+    self.<helper>(share, shnum, ..) the same per-state exploration is repeated here with the helper's effects added at the
+    call: the effects the helper performs on EVERY normal path that is consistent with the reported state, read with the
+    helper's parameters renamed to the handler's arguments (so `del self._active_share_map[num]` in the helper counts only
+    when `num` is bound to shnum).  The verdict of this exploration replaces the adopted one; without helper calls the
+    adopted verdict stands untouched."""
+    from sa.rules import C03 as c03
+    idx = ctx.idx
+    fn = idx.func(FETCH + "._block_request_activity")
+    if fn.cls is None:
+        return
+    states = c03._state_names(idx)
+    cfg = fn.cfg()
+    delegating = [c for n in cfg.nodes if n.kind not in ("entry", "exit", "raise") for c in node_calls(n)
+                  if isinstance(c.func, ast.Attribute) and attr_path(c.func.value) == "self"
+                  and fn.cls.lookup(c.func.attr) is not None and fn.cls.lookup(c.func.attr) is not fn
+                  and call_tail(c) != "loop"]
+    if not delegating or not any("can be handled without" in v.msg for v in rule.violations):
+        return
+
+    def names_of(t):
+        return set(re.findall(r"[A-Za-z_]\w*", t or ""))
+
+    def consistent(f, X):
+        op, l, rr = f
+        if op in ("is", "==", "is not", "!=") and "state" in (l, rr):
+            other = rr if l == "state" else l
+            if other in states:
+                return (other == X) if op in ("is", "==") else (other != X)
+        if op in ("in", "not in") and l == "state":
+            ns = names_of(rr)
+            if ns and ns <= states:
+                return (X in ns) if op == "in" else (X not in ns)
+        return True
+
+    def nothing_to_remove(f):
+        op, l, rr = f
+        if op in ("is not", "!=") and {l, rr} == {"self._active_share_map.get(shnum)", "share"}:
+            return True
+        return op == "not in" and l == "shnum" and rr == "self._active_share_map"
+
+    summaries = {}
+
+    class Body:
+        """One function read in the handler's vocabulary (share / shnum / state)."""
+        def __init__(self, f, rename, depth):
+            self.f, self.depth = f, depth
+            self.cfg = f.cfg()
+            self.fx = FlowNorm(f, rename=rename)
+
+        def callee_name(self, n, c):
+            try:
+                t = self.fx.norm(n, c.func)
+            except Exception:
+                t = None
+            return t if t and re.match(r"^[\w.]+$", t) else call_name(c)
+
+        def args_are(self, n, c, *want):
+            return len(c.args) >= len(want) and all(self.fx.norm(n, a) == w for a, w in zip(c.args, want))
+
+        def effects(self, n, X):
+            out = set()
+            a = n.ast
+            if n.kind == "stmt" and isinstance(a, ast.Delete):
+                for t in a.targets:
+                    if isinstance(t, ast.Subscript) and attr_path(t.value) == "self._active_share_map" \
+                            and self.fx.norm(n, t.slice) == "shnum":
+                        out.add("active-")
+            for c in node_calls(n):
+                nm = self.callee_name(n, c)
+                if nm == "self._active_share_map.pop" and self.args_are(n, c, "shnum"):
+                    out.add("active-")
+                if nm in ("self._overdue_share_map.discard", "self._overdue_share_map.remove") \
+                        and self.args_are(n, c, "shnum", "share"):
+                    out.add("overdue-")
+                if nm == "self._overdue_share_map.add" and self.args_are(n, c, "shnum", "share"):
+                    out.add("overdue+")
+                out |= self.helper_effects(n, c, X)
+            if "self._blocks[]" in node_stores(n):
+                # only the handler itself is trusted with the block store (C03.2 checks the value nowhere either)
+                if self.f is fn:
+                    out.add("block")
+            return out
+
+        def helper_effects(self, n, c, X):
+            if self.depth <= 0 or not isinstance(c.func, ast.Attribute) or attr_path(c.func.value) != "self":
+                return set()
+            h = self.f.cls.lookup(c.func.attr) if self.f.cls is not None else None
+            if h is None or h is fn or h is self.f or any(isinstance(a, ast.Starred) for a in c.args) \
+                    or any(k.arg is None for k in c.keywords):
+                return set()
+            if any(isinstance(x, (ast.Yield, ast.YieldFrom, ast.Await)) for x in func_own_nodes(h)) \
+                    or isinstance(h.node, ast.AsyncFunctionDef) or h.node.decorator_list:
+                return set()
+            ps = first_positional_params(h)
+            bound = {}
+            for prm, a in zip(ps, c.args):
+                bound[prm] = a
+            for k in c.keywords:
+                if k.arg in ps and k.arg not in bound:
+                    bound[k.arg] = k.value
+            rename = {}
+            for prm, a in bound.items():
+                t = self.fx.norm(n, a)
+                if re.match(r"^[A-Za-z_]\w*$", t or ""):
+                    rename[prm] = t
+            # a local or unbound parameter of the helper must not be mistaken for the handler's share / shnum / state
+            shadow = {"share", "shnum", "state"}
+            hstores = set()
+            for hn in h.cfg().nodes:
+                if hn.kind not in ("entry", "exit", "raise"):
+                    hstores |= {t for t in node_stores(hn) if re.match(r"^[A-Za-z_]\w*$", t)}
+            if hstores & set(rename):
+                return set()                         # the helper re-binds a parameter
+            for nm in (set(h.params) | hstores) - set(rename):
+                if nm in shadow:
+                    rename[nm] = "<local %s of %s>" % (nm, h.name)
+            key = (h.qual, tuple(sorted(rename.items())), X)
+            if key not in summaries:
+                summaries[key] = frozenset()         # recursion guard
+                b = Body(h, rename, self.depth - 1)
+                ends = b.ends(X)
+                summaries[key] = frozenset.intersection(*ends) if ends else frozenset()
+            return set(summaries[key])
+
+        def ends(self, X):
+            top = self.f is fn
+
+            def transfer(n, lab, nxt, st):
+                if n.kind in ("entry", "exit", "raise"):
+                    return st
+                if lab == "exc":
+                    return st
+                f = self.fx.edge_fact(n, lab)
+                if f:
+                    if (top and f == ("false", "self._running", None)) or not consistent(f, X):
+                        return None
+                    if nothing_to_remove(f):
+                        st = st | {"active-"}
+                e = self.effects(n, X)
+                return st | frozenset(e) if e else st
+            self.visited, self.parent = explore(self.cfg, frozenset(), transfer)
+            return [st for (nid, st) in self.visited if nid == self.cfg.exit.id]
+
+    words = {"active-": "removing it from _active_share_map", "overdue-": "discarding it from _overdue_share_map",
+             "overdue+": "adding it to _overdue_share_map", "block": "storing the validated block"}
+    why = {"active-": "the loop keeps counting the request as outstanding and never asks another share",
+           "overdue-": "the k-count of the no-more-shares test keeps counting a finished share and the read never fails",
+           "overdue+": "the no-more-shares test forgets a slow share and reports not-enough-shares while it may still answer",
+           "block": "the block is lost and the segment can never reach k blocks"}
+    kept = [v for v in rule.violations if "can be handled without" not in v.msg]
+    rule.violations = kept
+    for X in c03.TERMINAL + ("OVERDUE",):
+        need = {"active-", "overdue-"} if X in c03.TERMINAL else {"active-", "overdue+"}
+        if X == "COMPLETE":
+            need = need | {"block"}
+        top = Body(fn, None, 2)
+        ends = top.ends(X)
+        rule.count(len(top.visited))
+        if not ends:
+            raise AnalysisError("C46.6.2: no path of _block_request_activity is consistent with state %s" % X)
+        reported = set()
+        for st in ends:
+            for m in sorted(need - st):
+                if m in reported:
+                    continue
+                reported.add(m)
+                w = witness(cfg, top.parent, (cfg.exit.id, st))
+                rule.violation(fn, fn.loc(), "a share reporting %s can be handled without %s, in the handler or in the "
+                               "helpers it calls: %s (path: %s)" % (X, words[m], why[m], w.brief()), w)
+
+
 def run(ctx: Context):   # noqa: F811
     _run_termination(ctx)
     ctx.include("C03", ["C03.1", "C03.2", "C03.3", "C03.6", "C03.7"], "C46.6")
+    for rule in ctx.rules:
+        if rule.id == "C46.6.2":
+            try:
+                _bookkeeping_through_helpers(ctx, rule)
+            except AnalysisError as e:
+                # fail closed: the adopted verdict (violations included) stands and the problem is reported
+                ctx.analysis_errors.append("C46.6.2: helper-following re-decision failed: %s" % e)
